@@ -633,7 +633,10 @@ def r8(F, R):
     tc = tcs[0]
     quiet = [b for b in F.crate_bodies() if own(b) and b is not tc and not any(re.search(r"Vec::<.*>::push$|add_test(case|suite)$|write_xml$|mem::take$", callee_path(t) or "")
                                                                                 for nb in F.nested(b) for _, t in nb.calls())
-             and not any(F.callee_body(t, b.crate) is not None and own(F.callee_body(t, b.crate)) for nb in F.nested(b) for _, t in nb.calls())]
+             and not any(F.callee_body(t, b.crate) is not None and own(F.callee_body(t, b.crate)) for nb in F.nested(b) for _, t in nb.calls())
+             # (a helper that assigns one of the writer's fields, or hands out a `&mut` into it, is not quiet: `start_suite`, `current_suite_mut`)
+             and not any(st["pl"]["l"] == 1 and "*" in st["pl"]["p"] and any(isinstance(e, dict) and "f" in e for e in st["pl"]["p"]) for _, st in b.assigns())
+             and not b.locals[0].startswith("&mut ")]
     opq = "^(" + "|".join(re.escape(b.name) for b in [tc] + quiet) + ")$"
     dp = D.Deep(F, co, inline_only=own, opaque=opq, max_paths=6000)
     rows = dp.run()
